@@ -65,6 +65,7 @@ type EmittedJob struct {
 	Em *Emitted
 	RF *RouteFamily
 	SF *ServeHTTPFamily
+	PF *ParamsFamily
 	CS []*Contract
 }
 
@@ -117,6 +118,10 @@ func (cr *CheckRun) PrepareEmitted(bin string, ce CorpusEntry, expectGenError bo
 		if err := sf.Install(); err == nil {
 			job.SF = sf
 		}
+	}
+	if job.RF != nil {
+		job.PF = NewParamsFamily(em, job.RF)
+		job.PF.Install()
 	}
 	InstallResponderContracts(em)
 	InstallEnvContracts(em)
@@ -320,4 +325,16 @@ func (cr *CheckRun) CheckEmittedSafety(entries []CorpusEntry) {
 		return
 	}
 	cr.RunEntries(bin, entries, false, serverSideSel, nil)
+}
+
+// CheckParams: C04 / C05 over the corpus.
+func (cr *CheckRun) CheckParams(entries []CorpusEntry) {
+	bin, err := BuildGoag(cr.Repo, cr.Scratch)
+	if err != nil {
+		cr.EngineErrors = append(cr.EngineErrors, err.Error())
+		return
+	}
+	cr.RunEntries(bin, entries, false, func(name string) bool {
+		return strings.HasPrefix(name, "new") && strings.HasSuffix(name, "Params")
+	}, nil)
 }
